@@ -52,7 +52,7 @@ def scenarios(ctx, n):
             off = base_off.get(tp, rng.choice([0, 1, 5, 2 ** 20, 2 ** 30]))  # trace offsets stay below 2^31 (TLC integers); 2^47-1: packing cases
             base_off[tp] = off + 1
             recs.append(dict(id=i + 1, topic=tp[0], part=tp[1], off=off, epoch=rng.choice([0, 1, 65535]) if i == 0 else recs[0]["epoch"],
-                             cls=rng.choice(["P", "P", "P", "D", "R"]), delay_us=rng.choice([0, 0, 50, 300, 2000])))
+                             cls=rng.choice(["P", "P", "P", "D", "R", "S"]), delay_us=rng.choice([0, 0, 50, 300, 2000])))
         out.append(dict(run=run, name="c10-rnd-%d" % run, workers=rng.choice([1, 2, 3]), batch=rng.choice([1, 2, 3]),
                         cap=rng.choice([2, 8, 32]), single=rng.random() < 0.3, seed=ctx.seed * 1000 + run, recs=recs))
     return out
